@@ -124,6 +124,17 @@ impl OpCode {
     }
 }
 
+/// (byte, name, operand widths) of every opcode
+#[cfg(feature = "verif")]
+pub(crate) fn verif_opcode_table() -> Vec<(u8, String, Vec<usize>)> {
+    (0..=OpCode::Halt as u8)
+        .map(|b| {
+            let op = OpCode::from(b);
+            (b, op.to_string(), op.operands().to_vec())
+        })
+        .collect()
+}
+
 pub struct Bytecode {
     pub constants: Vec<Object>,
     pub instructions: Vec<u8>,
